@@ -179,6 +179,99 @@ class IfShaper(ast.NodeTransformer):
         return out
 
 
+class Stripper(ast.NodeTransformer):
+    """remove every docstring and every annotation (parameters, returns, annotated assignments without value are dropped)"""
+
+    def __init__(self):
+        self.count = 0
+
+    def _strip_doc(self, node):
+        b = node.body
+        if b and isinstance(b[0], ast.Expr) and isinstance(b[0].value, ast.Constant) and isinstance(b[0].value.value, str):
+            node.body = b[1:] or [ast.Pass()]
+            self.count += 1
+
+    def visit_Module(self, node):
+        self._strip_doc(node)
+        self.generic_visit(node)
+        return node
+
+    def visit_ClassDef(self, node):
+        self._strip_doc(node)
+        self.generic_visit(node)
+        return node
+
+    def visit_FunctionDef(self, node):
+        self._strip_doc(node)
+        node.returns = None
+        for a in node.args.args + node.args.kwonlyargs + node.args.posonlyargs + [x for x in (node.args.vararg, node.args.kwarg) if x]:
+            if a.annotation is not None:
+                a.annotation = None
+                self.count += 1
+        self.generic_visit(node)
+        return node
+
+    visit_AsyncFunctionDef = visit_FunctionDef
+
+    def visit_AnnAssign(self, node):
+        self.generic_visit(node)
+        if node.value is None:
+            return ast.Pass() if isinstance(node.target, ast.Name) else node
+        self.count += 1
+        return ast.Assign(targets=[node.target], value=node.value)
+
+
+class NpAxis(ast.NodeTransformer):
+    """numpy.f(a, axis=k) -> numpy.f(a, k) and a.f(axis=k) -> a.f(k) for the reductions whose second (first) parameter is axis"""
+
+    RED = ("sum", "mean", "any", "all", "max", "min", "amax", "amin", "prod", "std", "var", "nansum", "nanmean", "nanmax", "nanmin", "nanstd", "nanvar",
+           "argmax", "argmin", "cumsum", "median", "ptp", "count_nonzero")
+
+    def __init__(self, to_kw=False):
+        self.count = 0
+        self.to_kw = to_kw
+
+    def visit_Call(self, node):
+        self.generic_visit(node)
+        f = node.func
+        if self.to_kw:
+            if isinstance(f, ast.Attribute) and f.attr in self.RED and not any(isinstance(a, ast.Starred) for a in node.args) and not any(k.arg == "axis" for k in node.keywords):
+                is_np = isinstance(f.value, ast.Name) and f.value.id in ("numpy", "np")
+                if is_np and len(node.args) == 2:
+                    node.keywords.insert(0, ast.keyword(arg="axis", value=node.args.pop()))
+                    self.count += 1
+                elif not is_np and len(node.args) == 1 and f.attr in ("sum", "mean", "any", "all", "max", "min", "prod", "std", "var", "argmax", "argmin", "cumsum") \
+                        and not isinstance(f.value, ast.Constant):
+                    node.keywords.insert(0, ast.keyword(arg="axis", value=node.args.pop()))
+                    self.count += 1
+            return node
+        if isinstance(f, ast.Attribute) and f.attr in self.RED and node.keywords and node.keywords[0].arg == "axis" \
+                and not any(isinstance(a, ast.Starred) for a in node.args):
+            is_np = isinstance(f.value, ast.Name) and f.value.id in ("numpy", "np")
+            if (is_np and len(node.args) == 1) or (not is_np and len(node.args) == 0 and f.attr not in ("count_nonzero", "median", "amax", "amin") and not f.attr.startswith("nan")):
+                node.args.append(node.keywords[0].value)
+                node.keywords = node.keywords[1:]
+                self.count += 1
+        return node
+
+
+class DefSorter(ast.NodeTransformer):
+    """methods of every class re-ordered alphabetically among the positions methods occupy (stable: a property's getter stays before its setter)"""
+
+    def __init__(self):
+        self.count = 0
+
+    def visit_ClassDef(self, node):
+        self.generic_visit(node)
+        slots = [i for i, s in enumerate(node.body) if isinstance(s, (ast.FunctionDef, ast.AsyncFunctionDef))]
+        defs = sorted((node.body[i] for i in slots), key=lambda d: d.name)
+        for i, d in zip(slots, defs):
+            if node.body[i] is not d:
+                self.count += 1
+            node.body[i] = d
+        return node
+
+
 class Commuter(ast.NodeTransformer):
     """behaviour-preserving rewrites of expressions: a * b -> b * a (numbers / arrays / sequence repetition commute), a < b -> b > a, a == b -> b == a;
     positional arguments of calls to plain names are left alone.  Only inside function bodies."""
@@ -364,6 +457,9 @@ class Renamer(ast.NodeTransformer):
     visit_AsyncFunctionDef = visit_FunctionDef
 
 
+DESCR = ("npalias", "extract", "unelse", "negif", "negcmp", "strip", "npaxis", "npaxiskw", "defsort")
+
+
 def build(suffix, mode="rename"):
     tmp = tempfile.mkdtemp(prefix="rename_", dir="/tmp")
     prog = None
@@ -395,6 +491,14 @@ def build(suffix, mode="rename"):
                 r = Inliner()
             elif mode == "npalias":
                 r = NpAlias()
+            elif mode == "strip":
+                r = Stripper()
+            elif mode == "npaxis":
+                r = NpAxis()
+            elif mode == "npaxiskw":
+                r = NpAxis(to_kw=True)
+            elif mode == "defsort":
+                r = DefSorter()
             elif mode == "extract":
                 r = Extractor()
             elif mode in ("unelse", "negif", "negcmp"):
@@ -452,8 +556,8 @@ def main():
         print("renamed copy: %d files, %d local-name occurrences renamed (suffix %s), re-emitted by ast.unparse" % (nf, nn, suffix))
     elif mode == "inline":
         print("inlined copy: %d files, %d single-use pure temporaries substituted into the statement that follows them, re-emitted by ast.unparse" % (nf, nn))
-    elif mode in ("npalias", "extract", "unelse", "negif", "negcmp"):
-        print("%s copy: %d files, %d sites rewritten (%s), re-emitted by ast.unparse" % (mode, nf, nn, {"npalias": "import numpy -> import numpy as np, numpy.x -> np.x", "extract": "returned / stored expressions moved into a fresh temporary", "unelse": "else branch after a terminal if-body de-nested", "negif": "if c: A else: B -> if not c: B else: A", "negcmp": "if a == b: A else: B -> if a != b: B else: A (also is / in)"}[mode]))
+    elif mode in DESCR:
+        print("%s copy: %d files, %d sites rewritten (%s), re-emitted by ast.unparse" % (mode, nf, nn, {"strip": "docstrings and annotations removed", "npaxis": "axis= keyword of numpy reductions made positional", "npaxiskw": "positional axis of numpy reductions made a keyword", "defsort": "methods re-ordered alphabetically", "npalias": "import numpy -> import numpy as np, numpy.x -> np.x", "extract": "returned / stored expressions moved into a fresh temporary", "unelse": "else branch after a terminal if-body de-nested", "negif": "if c: A else: B -> if not c: B else: A", "negcmp": "if a == b: A else: B -> if a != b: B else: A (also is / in)"}[mode]))
     elif mode == "kwcalls":
         print("keyword-call copy: %d files, %d calls of package functions / own methods rewritten from positional to keyword arguments, re-emitted by ast.unparse" % (nf, nn))
     else:
